@@ -56,7 +56,7 @@ PROPS = {
     'C08': dict(
         title='Filter text and filter tree correspond',
         verus=[('u_filter', [r'^Lexer::parse_path$', r'^Parser::to_cmp_op$', r'^Lexer::greater_or_less$', r'^parse_id$', r'^parse_literal$']),
-               ('u_enc', [r'^Number::to_zinc$', r'^write_quoted_str$', r'^Str::to_zinc$']),
+               ('u_enc', [r'^Number::to_zinc$', r'^write_quoted_str$', r'^Str::to_zinc$'], dict(one_spelling=True)),
                ('u_fprint', [r'::fmt$', r'^lemma_op_pieces$', r'^(fp_|join_|path_text|op_text)'], dict(one_spelling=True)),
                ('u_fgram', [r'^Parser::', r'^lemma_join_', r'^lemma_drop_last_push$'], dict(beyond_property='the token-grammar contract also rejects a parser that starts to accept text which is not a filter, about which the property is silent'))],
         kani=[],
@@ -160,7 +160,7 @@ PROPS = {
     'C02': dict(
         title='Hayson encode -> decode returns the original value',
         verus=[('u_getters', [r'^parse_ref$', r'^parse_symbol$', r'^parse_uri$', r'^parse_coord$', r'^parse_xstr$', r'^parse_date$', r'^parse_time$', r'^parse_datetime$', r'^parse_number$']),
-               ('u_jenc', [r'::serialize$']),
+               ('u_jenc', [r'::serialize$'], dict(one_spelling=True)),
                ('u_tz', [r'^is_utc$'])],
         kani=[dict(harness='k_json_visit_numbers', klass='complete', schema='raw', family='json-visit', target='JsonValueDecoderVisitor::visit_{i8..u64,f64}'),
               dict(harness='k_json_visit_bool_null', klass='complete', schema=['bool'], family=None, target='JsonValueDecoderVisitor::visit_bool/visit_unit'),
@@ -184,7 +184,7 @@ PROPS = {
     'C05': dict(
         title='Hayson JSON conforms to the Project Haystack JSON encoding',
         verus=[('u_getters', [r'^parse_ref$', r'^parse_symbol$', r'^parse_uri$', r'^parse_coord$', r'^parse_xstr$', r'^parse_date$', r'^parse_time$', r'^parse_datetime$', r'^parse_number$', r'^Dict::get_str$', r'^Dict::get_num$']),
-               ('u_jenc', [r'::serialize$', r'^jv_']),
+               ('u_jenc', [r'::serialize$', r'^jv_'], dict(one_spelling=True)),
                ('u_jdec', [r'^JsonValueDecoderVisitor::visit_map$', r'^JsonValueDecoderVisitor::visit_seq$', r'^lemma_members_by_membership$', r'^lemma_kind_by_membership$', r'^lemma_no_kind$',
                            r'^lemma_perm_same_reading$', r'^lemma_object_members_in_any_order$'])],
         kani=[dict(harness='k_json_visit_numbers', klass='complete', schema='raw', family='json-visit', target='JsonValueDecoderVisitor::visit_{i8..u64,f64}'),
@@ -248,8 +248,8 @@ PROPS = {
         title='Timestamps keep their instant and zone',
         verus=[('u_tz', [r'^is_utc$']),
                ('u_zparse', [r'^parse_time_zone$', r'^parse_time_zone_name$']),
-               ('u_enc', [r'^DateTime::to_zinc$']),
-               ('u_jenc', [r'^DateTime::serialize$']),
+               ('u_enc', [r'^DateTime::to_zinc$'], dict(one_spelling=True)),
+               ('u_jenc', [r'^DateTime::serialize$'], dict(one_spelling=True)),
                ('u_getters', [r'^parse_datetime$']),
                ('u_capi', [r'^haystack_value_get_datetime_date$', r'^haystack_value_get_datetime_time$'])],
         kani=[dict(harness='k_fixed_tz_utc_iff_zero', klass='complete', schema='raw', family='fixed-tz', target='timezone::fixed_timezone', timeout=600)],
@@ -311,12 +311,12 @@ PROPS = {
     'C04': dict(
         title='Zinc text conforms to the Project Haystack grammar in both directions',
         verus=[('u_zparse', [r'^parse_str_escape$', r'^parse_str_unicode_escape$', r'^parse_str$', r'^Lexer::read$', r'^parse_literal$', r'^parse_id$', r'^lemma_lit_run_bytes$', r'^parse_unit$', r'^is_unit_char$', r'^parse_uri$', r'^parse_time_zone$']),
-               ('u_enc', [r'^write_quoted_str$', r'^write_str$', r'::to_zinc$', r'::zinc_encode$', r'^list_to_zinc$', r'^write_dict_tags$', r'^Column::to_zinc$', r'^Dict::to_zinc$', r'^Grid::to_zinc$', r'^Value::to_zinc$', r'^enc_(value|items|tag|tags|meta|col|cols|cells|rows|grid)$', r'^grid_head$', r'^grid_mid$', r'^dict_find$']),
+               ('u_enc', [r'^write_quoted_str$', r'^write_str$', r'::to_zinc$', r'::zinc_encode$', r'^list_to_zinc$', r'^write_dict_tags$', r'^Column::to_zinc$', r'^Dict::to_zinc$', r'^Grid::to_zinc$', r'^Value::to_zinc$', r'^enc_(value|items|tag|tags|meta|col|cols|cells|rows|grid)$', r'^grid_head$', r'^grid_mid$', r'^dict_find$'], dict(one_spelling=True)),
                ('u_zgram', [r'^Parser::parse_value$', r'^Parser::parse_nested_value$', r'^parse_list$', r'^parse_dict$', r'^parse_dict_parts$', r'^RowParser::parse_row$', r'^RowParser::consume_end$', r'^parse_nested_grid_end$', r'^parse_grid_ver$', r'^parse_grid_meta$', r'^lemma_(li|di|ri)_push$', r'_prefix$'], dict(beyond_property='the token-grammar contract also rejects a decoder that starts to accept text which is not a Zinc sentence, about which the property is silent'))],
         kani=[dict(harness='k_scanner_classes', klass='complete', schema=['u8'], family=None, target='Scanner::is_* byte classes'),
               dict(harness='k_unit_char_class', klass='complete', schema=['u8'], family=None, target='zinc number::is_unit_char'),
               dict(harness='k_u8_classes', klass='complete', schema=['u8'], family=None, target='u8::is_ascii_*')],
-        witness=['enum:zinc-escape', 'enum:zinc-spellings'],
+        witness=['enum:zinc-escape', 'enum:zinc-spellings', 'enum:zinc-reference'],
         design_ref='DESIGN.md section 4, C04',
         level_text=('Proof, per token class, against the Project Haystack Zinc grammar (the oracle is the grammar, not the code): Verus '
                     'proves one clause per string escape letter of parse_str_escape (\\b U+0008, \\f U+000C, \\n, \\r, \\t, \\", \\\\, \\$) '
@@ -349,14 +349,17 @@ PROPS = {
                      'the tokens read" holds for it; proved panic-free and terminating only; that commas appear only where the grammar allows them is '
                      'not part of the list/dict statement; the bounded enumerator enum:zinc-spellings checks 43 '
                      'alternative spellings -- number forms, \\u escapes, list/dict separators, CRLF line endings incl. at end of input, nested grids -- '
-                     'against the plain spelling of the same value); Dict is seen through its entry list in key order. The unit class tests `> 128`, i.e. excludes '
+                     'against the plain spelling of the same value; the bounded enumerator enum:zinc-reference hands the text written for 103 scalar and composite '
+                     'values to an independent reader written from the grammar inside the replay crate -- strict about brackets, separators, quotes, parentheses and '
+                     'the line structure of grids -- and demands the value back: this is what turns a failed writer obligation into a violation when the new '
+                     'spelling is not a sentence, and into undecided when it is another legal spelling); Dict is seen through its entry list in key order. The unit class tests `> 128`, i.e. excludes '
                      'byte 0x80 that the grammar admits -- harmless: no database unit contains it (C15 lemma).'),
         technique='contract-based deductive verification: Verus per-letter postconditions on the real body + Kani complete byte-class harnesses',
     ),
     'C10': dict(
         title='Encoders never panic on any constructible value',
-        verus=[('u_enc', [r'::to_zinc$', r'::zinc_encode$', r'^list_to_zinc$', r'^write_dict_tags$', r'^write_str$', r'^write_quoted_str$', r'^Error::<From<std::io::Error>>::from$', r'^InnerGrid::']),
-               ('u_jenc', [r'::serialize$'])],
+        verus=[('u_enc', [r'::to_zinc$', r'::zinc_encode$', r'^list_to_zinc$', r'^write_dict_tags$', r'^write_str$', r'^write_quoted_str$', r'^Error::<From<std::io::Error>>::from$', r'^InnerGrid::'], dict(one_spelling=True)),
+               ('u_jenc', [r'::serialize$'], dict(one_spelling=True))],
         kani=[dict(harness='k_json_number_exact', klass='complete', schema=['f64'], family='json-number', target='<Number as Serialize>::serialize (panic-free over all f64)'),
               dict(harness='k_zinc_keywords', klass='complete', schema=['u8'], family=None, target='to_zinc of Marker/Remove/Na/Bool')],
         witness='enum:zinc-encode-panics',
@@ -418,7 +421,7 @@ PROPS = {
         verus=[('u_zparse', [r'^lemma_keyword_roundtrip$', r'^Lexer::read$', r'^parse_literal$', r'^parse_str_escape$', r'^lemma_lit_run_bytes$',
                              r'^parse_str$', r'^parse_str_unicode_escape$', r'^lemma_str_body_plain$', r'^lemma_hex4_value$', r'^lemma_str_body_char$',
                              r'^lemma_str_body_enc$', r'^lemma_str_roundtrip$', r'^parse_ref$', r'^lemma_ref_run_prefix$', r'^lemma_ref_roundtrip$', r'^parse_uri$', r'^lemma_uri_body_plain$', r'^lemma_uri_body_char$', r'^lemma_uri_body_enc$', r'^lemma_uri_roundtrip$', r'^parse_symbol$', r'^lemma_symbol_roundtrip$', r'^parse_xstr_body$', r'^lemma_lit_run_prefix$', r'^lemma_xstr_roundtrip$']),
-               ('u_enc', [r'^write_quoted_str$', r'^Str::to_zinc$', r'^Ref::to_zinc$', r'^Uri::to_zinc$', r'^Symbol::to_zinc$', r'^XStr::to_zinc$', r'^lemma_str_escape_inverse$', r'^Marker::to_zinc$', r'^Remove::to_zinc$', r'^Na::to_zinc$', r'^Bool::to_zinc$', r'^Number::to_zinc$']),
+               ('u_enc', [r'^write_quoted_str$', r'^Str::to_zinc$', r'^Ref::to_zinc$', r'^Uri::to_zinc$', r'^Symbol::to_zinc$', r'^XStr::to_zinc$', r'^lemma_str_escape_inverse$', r'^Marker::to_zinc$', r'^Remove::to_zinc$', r'^Na::to_zinc$', r'^Bool::to_zinc$', r'^Number::to_zinc$'], dict(one_spelling=True)),
                ('u_zgram', [r'^Parser::parse_value$', r'^Parser::parse_nested_value$', r'^parse_list$', r'^parse_dict$', r'^parse_dict_parts$', r'^RowParser::parse_row$', r'^parse_grid_ver$', r'^parse_grid_meta$'], dict(beyond_property='the token-grammar contract also rejects a decoder that starts to accept text which is not a Zinc sentence, about which the property is silent'))],
         kani=[dict(harness='k_zinc_keywords', klass='complete', schema=['u8'], family=None, target='to_zinc of Marker/Remove/Na/Bool')],
         witness=['enum:zinc-roundtrip-scalars', 'enum:zinc-escape'],
